@@ -146,3 +146,22 @@ def innermost_lib_frame(tb, repo_root):
         if fn.startswith(root):
             hit = f"{os.path.relpath(fn, root)}:{fs.name}"
     return hit
+
+
+# ----------------------------------------------------------------------------- stratified choice
+# Hypothesis draws the first elements of a sampled_from list several times more often than the last ones
+# (measured: 80 vs 16 of 220 for a five-element list).  Classes that need two or three late choices at once
+# are then starved.  Every shard (and seed) therefore reads its option lists from another starting point:
+# `sampled_from` is st.sampled_from with the list rotated by an offset that depends on the shard's stratum.
+STRATUM = 0
+N_STRATA = 1
+
+
+def sampled_from(seq):
+    from hypothesis import strategies as st
+
+    seq = list(seq)
+    n = len(seq)
+    if n <= 1:
+        return st.sampled_from(seq)
+    return st.integers(0, n - 1).map(lambda i: seq[(i + (STRATUM * n) // max(1, N_STRATA)) % n])
